@@ -27,6 +27,8 @@ EXTRAS = [
     lambda rep, fb, tier: forward.rule_same_name(rep, fb),
     lambda rep, fb, tier: pyrules.rule_py_dispatch(rep),
     lambda rep, fb, tier: pyrules.rule_py_categories(rep),
+    lambda rep, fb, tier: pyrules.rule_py_call_shape(rep),
+    lambda rep, fb, tier: pyrules.rule_py_highlevel_returns(rep),
     lambda rep, fb, tier: __import__("vf.rules.methodrules", fromlist=["x"]).rule_index_content(rep, fb),
     lambda rep, fb, tier: __import__("vf.rules.methodrules", fromlist=["x"]).rule_index_domain(rep, fb),
     lambda rep, fb, tier: __import__("vf.rules.methodrules", fromlist=["x"]).rule_broadcast_validated(rep, fb),
